@@ -1,4 +1,4 @@
 From Coq Require Import Extraction ExtrOcamlBasic NArith.
 From DV Require Import Base.Outcome C15.Gen C15.Model.
 Extraction Language OCaml.
-Extraction "../build/ml/C15/model.ml" c15_trace c15_run_obs c15_prefill q_new c15_is_answer c15_dgram c15_demux c15_pending c15_lb_local c15_lb_run c15_ms_request.
+Extraction "../build/ml/C15/model.ml" c15_trace c15_run_obs c15_prefill q_new c15_is_answer c15_dgram c15_demux c15_pending c15_lb_local c15_lb_run c15_ms_request c15_msc c15_red c15_red_skip.
